@@ -15,3 +15,36 @@ Proof. reflexivity. Qed.
 Theorem C02_mld_zero_refuted :
   exists u s1 s2, c_dtw_model (py_to_c u) s1 s2 <> dtw_model u s1 s2.
 Proof. exact mld_zero_refuted. Qed.
+
+(* The row loop of each of the four C kernels (expressions regenerated from dd_dtw.c) visits the band of the
+   specification and uses the buffer length and per-row offset of dtw.distance (regenerated from dtw.py): the
+   as-written model of dtw.distance, proved against the specification (C01, C03), has the index arithmetic of
+   the C kernels too. *)
+From DV Require Import BandTie CBand.
+From DVGen Require Import Gen_dtw Gen_cmem.
+
+Theorem C02_c_kernels_same_band_and_buffer :
+  band_facts (cv_maxj c_dtw_distance_ldiff c_dtw_distance_dl c_dtw_distance_dl_window c_dtw_distance_maxj)
+             (cv_minj c_dtw_distance_ldiff c_dtw_distance_ldiff_window c_dtw_distance_minj)
+             (cv_skip c_dtw_distance_ldiff c_dtw_distance_dl c_dtw_distance_dl_window c_dtw_distance_maxj
+                      c_dtw_distance_skip c_dtw_distance_length)
+             (cv_length c_dtw_distance_ldiff c_dtw_distance_length) /\
+  band_facts (cv_maxj c_dtw_distance_ndim_ldiff c_dtw_distance_ndim_dl c_dtw_distance_ndim_dl_window c_dtw_distance_ndim_maxj)
+             (cv_minj c_dtw_distance_ndim_ldiff c_dtw_distance_ndim_ldiff_window c_dtw_distance_ndim_minj)
+             (cv_skip c_dtw_distance_ndim_ldiff c_dtw_distance_ndim_dl c_dtw_distance_ndim_dl_window c_dtw_distance_ndim_maxj
+                      c_dtw_distance_ndim_skip c_dtw_distance_ndim_length)
+             (cv_length c_dtw_distance_ndim_ldiff c_dtw_distance_ndim_length) /\
+  band_facts (cv_maxj c_dtw_distance_euclidean_ldiff c_dtw_distance_euclidean_dl c_dtw_distance_euclidean_dl_window c_dtw_distance_euclidean_maxj)
+             (cv_minj c_dtw_distance_euclidean_ldiff c_dtw_distance_euclidean_ldiff_window c_dtw_distance_euclidean_minj)
+             (cv_skip c_dtw_distance_euclidean_ldiff c_dtw_distance_euclidean_dl c_dtw_distance_euclidean_dl_window c_dtw_distance_euclidean_maxj
+                      c_dtw_distance_euclidean_skip c_dtw_distance_euclidean_length)
+             (cv_length c_dtw_distance_euclidean_ldiff c_dtw_distance_euclidean_length) /\
+  band_facts (cv_maxj c_dtw_distance_ndim_euclidean_ldiff c_dtw_distance_ndim_euclidean_dl c_dtw_distance_ndim_euclidean_dl_window c_dtw_distance_ndim_euclidean_maxj)
+             (cv_minj c_dtw_distance_ndim_euclidean_ldiff c_dtw_distance_ndim_euclidean_ldiff_window c_dtw_distance_ndim_euclidean_minj)
+             (cv_skip c_dtw_distance_ndim_euclidean_ldiff c_dtw_distance_ndim_euclidean_dl c_dtw_distance_ndim_euclidean_dl_window c_dtw_distance_ndim_euclidean_maxj
+                      c_dtw_distance_ndim_euclidean_skip c_dtw_distance_ndim_euclidean_length)
+             (cv_length c_dtw_distance_ndim_euclidean_ldiff c_dtw_distance_ndim_euclidean_length).
+Proof.
+  split; [exact c_band_dtw_distance|]. split; [exact c_band_dtw_distance_ndim|].
+  split; [exact c_band_dtw_distance_euclidean|exact c_band_dtw_distance_ndim_euclidean].
+Qed.
